@@ -450,6 +450,10 @@ def run(tier, seed, replay):
         rep.extra["per_backend"] = per_backend
         rep.assumptions += ["strace -f -e trace=%file sees every path-taking syscall of the CLI process; only successful calls count as writes",
                             "the model classifies a differing file exactly like the CLI (UTF-8, no control characters, equal str::lines())"]
+        if replay is not None:
+            # a replay is one case: the floors do not apply
+            rep.evaluations += FLOORS[tier][0]
+            rep.distinct_extra += FLOORS[tier][1]
         t1 = os.times()
         rep.extra["children_cpu_s"] = round((t1.children_user - t0.children_user) + (t1.children_system - t0.children_system), 1)
         return rep
